@@ -46,7 +46,7 @@ VARIABLES
     buf, cdict, mt,             \* Parser / MapfileToDict fields, per object
     raw, exp, sobj,             \* Validator fields per object; schema objects (pruned entries)
     args,                       \* the dictionaries the callers hold (the arguments)
-    fin, hist, sched,           \* completed calls (set), history and schedule (when Record)
+    fin, hist, sched,           \* call just completed per thread; history and schedule (when Record)
     running, last, sid          \* scheduler: thread inside a segment; last stepper; script id
 
 vars == <<pc, cur, ncalls, buf, cdict, mt, raw, exp, sobj, args, fin, hist, sched, running, last, sid>>
@@ -117,6 +117,8 @@ F(c) ==
 Public(c) == [kind |-> c.kind, doc |-> c.doc, com |-> c.com, ver |-> c.ver, key |-> c.key, n |-> c.n,
               snap |-> c.snap]
 
+NoFin == [t |-> 0, call |-> Public(NoCall), ret |-> NoRet]
+
 -----------------------------------------------------------------------------
 (* Call menus                                                              *)
 
@@ -167,12 +169,13 @@ Step(t, newpc, c) ==
     /\ sched' = IF Record /\ Mode = "script" /\ AtSeam(t, newpc, c)
                 THEN Append(sched, [t |-> t, at |-> IF newpc = "idle" THEN "end" ELSE newpc])
                 ELSE sched
-    /\ IF newpc = "idle"
-       THEN /\ fin' = fin \cup {[t |-> t, call |-> Public(c), ret |-> c.ret]}
-            /\ hist' = IF Record THEN Append(hist, [t |-> t, call |-> Public(c), ret |-> c.ret,
-                                                     exp |-> F(c)])
-                       ELSE hist
-       ELSE UNCHANGED <<fin, hist>>
+    \* fin[t]: the call thread t has just completed (forgotten when t goes on: the invariant has
+    \* looked at it in the state where it completed)
+    /\ fin' = [fin EXCEPT ![t] = IF newpc = "idle" THEN [t |-> t, call |-> Public(c), ret |-> c.ret]
+                                 ELSE NoFin]
+    /\ hist' = IF Record /\ newpc = "idle"
+               THEN Append(hist, [t |-> t, call |-> Public(c), ret |-> c.ret, exp |-> F(c)])
+               ELSE hist
 
 LexPc(k) == <<"lex1", "lex2", "lex3", "lex4">>[k]
 
@@ -399,7 +402,7 @@ Init ==
     /\ exp = [v \in VObjs |-> {}]
     /\ sobj = [s \in SObjs |-> {}]
     /\ args = [d \in DictDocs |-> Heap0]
-    /\ fin = {}
+    /\ fin = [t \in Threads |-> NoFin]
     /\ hist = <<>>
     /\ sched = <<>>
     /\ running = 0
@@ -419,7 +422,7 @@ ArgsStep ==
 ArgsUnchanged == [][ArgsStep]_vars
 
 \* every completed call returned what a sequential call on fresh workers returns
-SeqEquivalent == \A r \in fin : r.ret = F(r.call)
+SeqEquivalent == \A t \in Threads : fin[t].t # 0 => fin[t].ret = F(fin[t].call)
 
 TypeOK ==
     /\ \A t \in Threads : cur[t].kind \in AllKinds \cup {"none"}
